@@ -586,6 +586,15 @@ def gen_paced(r, n):
                 bursts.append([("rename", o, q1), ("rename", q1, q2)])
                 dirs.update(q2 + q[len(o):] for q in od); files.update(q2 + q[len(o):] for q in of)
                 vacated.append(q1)
+        elif k < 0.66 and [q for q in dirs if q != "W"]:     # a directory tree of the tree renamed twice in a row
+            d = r.choice(sorted(q for q in dirs if q != "W"))
+            free = sorted(q for q in dirs if not (q == d or q.startswith(d + "/")))
+            b1, b2 = r.choice(free), r.choice(free)
+            if b1.count("/") < 4 and b2.count("/") < 4:
+                m1, m2 = f"{b1}/t{used}", f"{b2}/tt{used}"
+                bursts.append([("rename", d, m1), ("rename", m1, m2)])
+                rekey(d, m2)
+                vacated += [d, m1]
         elif k < 0.7:       # file storm
             ops = []
             fl = sorted(files)
